@@ -138,6 +138,15 @@ Proof. exact NormProofs.norm_idempotent. Qed.
 Theorem schema_string_roundtrip : forall s, nodup_keys s -> modify (canon (modify s)) = modify s.
 Proof. exact StringProofs.schema_string_roundtrip. Qed.
 
+(* observational immutability: everything the codec does is a function of the schema's string form *)
+Theorem behaviour_function_of_string : forall round32 widen32 s1 s2,
+  nodup_keys s1 -> nodup_keys s2 -> canon (modify s1) = canon (modify s2) ->
+  (forall v, valid (modify s1) v = valid (modify s2) v) /\
+  (forall v, encode round32 (modify s1) v = encode round32 (modify s2) v) /\
+  (forall fuel buf, decode widen32 fuel (modify s1) buf = decode widen32 fuel (modify s2) buf) /\
+  np_dtype (modify s1) = np_dtype (modify s2).
+Proof. exact same_string_same_codec. Qed.
+
 Theorem order_by_index_order_independent : forall ps ps',
   Permutation ps ps' -> NoDup (map pkey ps) -> sort_props ps = sort_props ps'.
 Proof. exact sort_props_perm_invariant. Qed.
